@@ -4,6 +4,7 @@ Sig_structure) and the request builders for the extracted signing model (coq/Run
 import hashlib
 import json
 import os
+import time
 import shutil
 import subprocess
 import sys
@@ -438,6 +439,7 @@ def lib_single(tmp, data, key_name, kid, alg, ctx, action, name="lib"):
         fh.write(data)
     with open(fo, "wb") as fh:
         fh.write(STALE)
+    os.utime(fo, (time.time() + 3600, time.time() + 3600))
     r = impl(_cmd().main, sign_subcommand="single-level", input_envelope=fi, output_envelope=fo, key_name=key_name, key_id=kid,
              alg=SuitSignAlgorithms(alg), context=ctx, sign_script=sign_script(), kms_script=kms_script(),
              already_signed_action=SignatureAlreadyPresentActions(action))
@@ -455,6 +457,7 @@ def lib_recursive(tmp, data, config, name="lib", env=None):
         json.dump(config, fh)
     with open(fo, "wb") as fh:
         fh.write(STALE)
+    os.utime(fo, (time.time() + 3600, time.time() + 3600))
     saved = {k: os.environ.get(k) for k in ("NCS_SUIT_SIGN_SCRIPT", "NCS_SUIT_KMS_SCRIPT", "ZEPHYR_BASE")}
     for k in saved:
         os.environ.pop(k, None)
@@ -496,6 +499,7 @@ def cli_single(tmp, name, data, key_name, kid, alg, ctx, action=None, kid_text=N
     fo = os.path.join(d, "out.suit")
     with open(fo, "wb") as fh:
         fh.write(STALE)
+    os.utime(fo, (time.time() + 3600, time.time() + 3600))
     rc = cli(args, d)
     out = read_output(fo)
     shutil.rmtree(d, ignore_errors=True)
@@ -513,6 +517,7 @@ def cli_recursive(tmp, name, data, config, env=None):
     fo = os.path.join(d, "out.suit")
     with open(fo, "wb") as fh:
         fh.write(STALE)
+    os.utime(fo, (time.time() + 3600, time.time() + 3600))
     rc = cli(["sign", "recursive", "--input-envelope", "in.suit", "--output-envelope", "out.suit", "--configuration", "cfg.json"], d, env)
     out = read_output(fo)
     shutil.rmtree(d, ignore_errors=True)
